@@ -30,6 +30,11 @@ class Ctx:
         self.tier = tier
         self.pdb_unchecked = pdb_unchecked
         self.cache = {}
+        # totality mode (see total()): panic sites of the summaries built while a rule name is set are re-checked on
+        # every concrete binding the rule folds the summary's result on
+        self.total_rule = None
+        self.viol_of = {}        # id(ret node) -> (ret node, [obligations], rule)
+        self.sites = {}          # (rule, fn, kind, line) -> [bindings checked, first failing binding or None]
 
     # ---- lookups ---------------------------------------------------------------------------
     def method(self, self_ty, name, trait=None):
@@ -84,11 +89,76 @@ class Ctx:
         self.rep.fn(key)
         ret, st2 = ex.summarise(key, args, self_ty, st)
         outs = [ex.load(st2, r) if r is not None else None for r in refs]
-        return Summary(ret, outs, ex.obligations, ex, st2)
+        sm = Summary(ret, outs, ex.obligations, ex, st2)
+        if self.total_rule:
+            self.register_total(sm)
+        return sm
+
+    # ---- totality: the functions a property observes must not panic on the inputs it quantifies over -------------
+    def total(self, rule):
+        """with ctx.total("Cxx.no-panic"): summaries built inside are registered; whenever a rule later folds such a
+        summary's result on a concrete binding (an input of the property's domain), the summary's panic sites (MIR
+        asserts: overflow, bounds, division; explicit panics: assert!/debug_assert!/unwrap/unreachable) are folded on
+        the same binding.  finish_total() records one obligation per panic site."""
+        ctx = self
+
+        class _T:
+            def __enter__(self_):
+                self_.old = ctx.total_rule
+                ctx.total_rule = rule
+
+            def __exit__(self_, *a):
+                ctx.total_rule = self_.old
+                return False
+        return _T()
+
+    def register_total(self, sm, rule=None):
+        rule = rule or self.total_rule
+        obs = [o for o in sm.obligations if not (o.cond[0] == "c" and o.cond[1])]
+        for o in obs:
+            site = (rule, o.fn, o.kind, o.line)
+            ent = self.sites.setdefault(site, [0, None])
+            if o.cond[0] == "c" and all(c[0] == "c" and c[1] for c in o.pc):
+                # concrete arguments: the site is reached and fails
+                ent[0] += 1
+                ent[1] = ent[1] or "the concrete arguments of the call"
+        obs = [o for o in obs if not (o.cond[0] == "c" and all(c[0] == "c" for c in o.pc))]
+        if obs:
+            for node in [sm.ret] + [x for x in sm.outs if x is not None]:
+                if node is None or node[0] in ("c", "atom"):
+                    continue
+                old = self.viol_of.get(id(node))
+                self.viol_of[id(node)] = (node, (old[1] if old else []) + obs, rule)
+
+    def check_total(self, fold_, env, obs, rule):
+        for o in obs:
+            site = (rule, o.fn, o.kind, o.line)
+            ent = self.sites.setdefault(site, [0, None])
+            ent[0] += 1
+            if ent[1] is not None:
+                continue
+            try:
+                if all(cval(fold_.ev(c)) for c in o.pc) and not cval(fold_.ev(o.cond)):
+                    ent[1] = describe_env(env)
+                    return
+            except (IndexError, KeyError, ZeroDivisionError, TypeError, Uncertified) as e:
+                ent[1] = "%s (evaluation of the site failed: %r)" % (describe_env(env), e)
+                return
+
+    def finish_total(self):
+        for (rule, fn, kind, line), (n, bad) in sorted(self.sites.items(), key=lambda kv: (kv[0][0], str(kv[0][1]), str(kv[0][3]), str(kv[0][2]))):
+            self.rep.ob(rule, "%s %s L%s" % (short(fn), kind, line), bad is None,
+                        "panic site (%s, line %s) in %s is reached and fails for %s" % (kind, line, short(fn), bad), self.pdb.where(fn))
+        self.sites = {}
 
     def fold(self, node, env):
         self.rep.evals()
-        return evaluate(self.pdb, node, env)
+        t = self.viol_of.get(id(node))
+        if t is None:
+            return evaluate(self.pdb, node, env)
+        f = Fold(self.pdb, env)
+        self.check_total(f, env, t[1], t[2])
+        return f.ev(node)
 
     def guard(self, rule, f, *a, **kw):
         """Run a rule body; an Uncertified construct becomes a fail-closed violation of that rule."""
@@ -103,6 +173,72 @@ class Ctx:
         except RecursionError:
             self.rep.uncertified(rule, "analysis recursion limit", "")
             return None
+
+
+def describe_env(env):
+    parts = []
+    for k in sorted(env):
+        v = env[k]
+        if callable(v):
+            continue
+        if isinstance(v, tuple) and v and v[0] == "c":
+            v = v[1]
+        parts.append("%s=%s" % (k, hex(v) if isinstance(v, int) and v > 9 else repr(v)))
+    return ", ".join(parts)[:300]
+
+
+def panic_free(ctx, rule, sm, envs, exhaustive, what=""):
+    """Every panic site of the summary holds: shown by the bound prover for arbitrary inputs, or folded over `envs`
+    (bindings of the summary's atoms).  exhaustive=True says envs cover the property's whole domain for this function
+    (no failing binding = discharged); otherwise a site that is neither proven nor refuted is reported fail-closed."""
+    from ..evals import prove_obligation
+    rep, pdb = ctx.rep, ctx.pdb
+    obs = [o for o in sm.obligations if not (o.cond[0] == "c" and o.cond[1])]
+    if not obs:
+        rep.ob(rule, (what + " " if what else "") + "no reachable panic site", True, nontrivial=False)
+        return True
+    envs = list(envs)
+    allok = True
+    for o in obs:
+        inst = "%s%s %s L%s" % ((what + ": ") if what else "", short(o.fn), o.kind, o.line)
+        where = "%s line %s" % (pdb.where(o.fn), o.line)
+        if o.cond[0] != "c" and prove_obligation(pdb, o.cond):
+            rep.ob(rule, inst, True)
+            continue
+        bad = None
+        for env in envs:
+            f = Fold(pdb, env)
+            try:
+                if all(cval(f.ev(c)) for c in o.pc) and not cval(f.ev(o.cond)):
+                    bad = env
+            except (IndexError, KeyError, ZeroDivisionError):
+                bad = env
+            if bad is not None:
+                break
+        rep.evals(len(envs))
+        if bad is not None:
+            allok = False
+            rep.ob(rule, inst, False, "panic site (%s, line %s) in %s is reached and fails for %s" % (o.kind, o.line, short(o.fn), describe_env(bad)), where)
+        elif exhaustive or (o.cond[0] == "c" and not envs):
+            rep.ob(rule, inst, True)
+        else:
+            allok = False
+            rep.uncertified(rule, "panic site %s is neither proven safe for arbitrary inputs nor refuted on %d sample bindings" % (inst, len(envs)), where)
+    return allok
+
+
+def panic_node(obligations):
+    """boolean node: some panic site among the obligations is reached and fails"""
+    from ..sym import mk_and, mk_or, mk_not
+    v = FALSE
+    for o in obligations:
+        if o.cond[0] == "c" and o.cond[1]:
+            continue
+        c = mk_not(o.cond)
+        for p_ in reversed(o.pc):
+            c = mk_and(p_, c)
+        v = mk_or(v, c)
+    return v
 
 
 def enum_name(pdb, v):
